@@ -578,13 +578,53 @@ pub fn run(rep: &Arc<Report>) {
     nc!(Vec<String>, "Vec<String>", "Array");
     nc!(Vec<f64>, "Vec<f64>", "Array");
     domains.insert("(source variant, target type) pairs".into(), json!(format!("{} pool values x 38 target types (+ Option of each)", pool.len())));
-    // an array whose element type differs from the target's must be rejected although the variant matches
+    // an array whose element type differs from the target's must be rejected although the variant matches: every ordered pair
+    // of distinct element types x array lengths 0, 1, 2 (the empty array carries its element type in the tag only), as
+    // Vec<T> and as Option<Vec<T>>
     {
-        evals.inc();
-        let v: Value = vec![1i64].into();
-        if <Vec<i32> as ValueType>::try_from(v.clone()).is_ok() {
-            cx.fail("cross<Vec<i32>>", "wrong-type-accepted", "Array(BigInt)", format!("Vec<i32>::try_from({:?}) returned Ok", v));
+        macro_rules! src_arrays {
+            ($t:ty, $a:expr, $b:expr) => {{
+                let e: Vec<$t> = vec![];
+                let one: Vec<$t> = vec![$a];
+                let two: Vec<$t> = vec![$a, $b];
+                vec![(stringify!($t), Value::from(e)), (stringify!($t), Value::from(one)), (stringify!($t), Value::from(two))]
+            }};
         }
+        let mut sources: Vec<(&str, Value)> = vec![];
+        sources.extend(src_arrays!(i32, 1, 2));
+        sources.extend(src_arrays!(i64, 1, 2));
+        sources.extend(src_arrays!(u32, 1, 2));
+        sources.extend(src_arrays!(f32, 1.5, 2.5));
+        sources.extend(src_arrays!(f64, 1.5, 2.5));
+        sources.extend(src_arrays!(bool, true, false));
+        sources.extend(src_arrays!(char, 'a', 'b'));
+        sources.extend(src_arrays!(String, "x".to_string(), "y".to_string()));
+        sources.extend(src_arrays!(uuid::Uuid, uuid::Uuid::from_u128(1), uuid::Uuid::from_u128(2)));
+        macro_rules! target {
+            ($t:ty) => {
+                for (sname, v) in &sources {
+                    if *sname == stringify!($t) {
+                        continue;
+                    }
+                    evals.inc();
+                    if <Vec<$t> as ValueType>::try_from(v.clone()).is_ok() {
+                        cx.fail(&format!("cross<Vec<{}>>", stringify!($t)), "wrong-type-accepted", &format!("Array({sname})"), format!("Vec<{}>::try_from({:?}) returned Ok", stringify!($t), v));
+                    }
+                    if let Ok(x) = <Option<Vec<$t>> as ValueType>::try_from(v.clone()) {
+                        cx.fail(&format!("cross<Option<Vec<{}>>>", stringify!($t)), "wrong-type-accepted", &format!("Array({sname})"), format!("Option<Vec<{}>>::try_from({:?}) returned Ok({:?})", stringify!($t), v, x.map(|v| v.len())));
+                    }
+                }
+            };
+        }
+        target!(i32);
+        target!(i64);
+        target!(u32);
+        target!(f32);
+        target!(f64);
+        target!(bool);
+        target!(char);
+        target!(String);
+        target!(uuid::Uuid);
     }
     // ---- as_null / dummy_value on the whole pool (incl. NULLs)
     for v in &pool {
